@@ -455,6 +455,10 @@ class ModuleVistor(NodeVisitor):
         _localNameToFullName = self.builder.current._localNameToFullName_map
         for al in node.names:
             targetname, asname = al.name, al.asname
+            # Make sure the imported module is processed, like for 'from x import y', 
+            # so that what can be resolved through it does not depend on 
+            # the order in which the modules happen to be processed.
+            self.system.getProcessedModule(targetname)
             if asname is None:
                 # we're keeping track of all defined names
                 asname = targetname = targetname.split('.')[0]
